@@ -8,3 +8,6 @@ open Emboss.View
 #print axioms C04_arith_no_overflow
 #print axioms Emboss.Bounds.C04_no_overflow
 #print axioms Emboss.Bounds.C04_choice_static_assert_counterexample
+#print axioms Emboss.Text.C04_text_buffer_in_bounds
+#print axioms Emboss.Text.C04_text_buffer_trace_is_writeInt
+#print axioms Emboss.Text.C04_text_buffer_tight_counterexample
